@@ -201,6 +201,22 @@ def tree_words(tokens, env, escape_url):
     return c
 
 
+DEF_START = re.compile(r"(?m)^[ \t>*+\-0-9.)]*\[((?:[^\[\]\\]|\\.)+)\]:")
+
+
+def repeated_definition_at(d):
+    """offset of the first line that starts like a link reference definition with a label that an earlier such line carries already
+    (labels compared as the parser does: case folded, white-space runs collapsed), or None.  A repeated definition is ignored as a
+    whole - the first one wins (C12) - and its words are what the theorem calls the dropped duplicates: outside the claim"""
+    seen = set()
+    for mm in DEF_START.finditer(d):
+        key = " ".join(mm.group(1).split()).lower()
+        if key in seen:
+            return mm.start()
+        seen.add(key)
+    return None
+
+
 def check_doc(m, doc, plugins, fails, shrink=True):
     md = m.create_markdown(renderer=None, plugins=plugins)
 
@@ -210,6 +226,10 @@ def check_doc(m, doc, plugins, fails, shrink=True):
         want = collections.Counter(re.findall(r"[wxX]\d+q", d))
         # a reference link carries its label both as 'label' and (through the definition) in env: the use-site label is one occurrence
         lost = {w: n for w, n in want.items() if have.get(w, 0) < n}
+        if lost:
+            at = repeated_definition_at(d)
+            if at is not None:
+                lost = {w: n for w, n in lost.items() if d.find(w) < at}
         dup = {w: have[w] for w in have if have[w] > want.get(w, 0)}
         return lost, dup
     try:
